@@ -366,7 +366,9 @@ func rewriteFile(p *packages.Package, file *ast.File, name, repo string, stmtLvl
 				r.insertAround(c, n, []ast.Stmt{before}, nil)
 			}
 		case *ast.RangeStmt:
-			if r.isChan(n.X) {
+			if r.isMap(n.X) {
+				c.Replace(r.rewriteMapRange(n))
+			} else if r.isChan(n.X) {
 				v := r.fresh()
 				before := &ast.AssignStmt{Lhs: []ast.Expr{ast.NewIdent(v)}, Tok: token.DEFINE, Rhs: []ast.Expr{call(sel("verifsim", "BeforeBlock"), r.site(n.Pos(), "range"))}}
 				after := &ast.ExprStmt{X: call(sel("verifsim", "AfterBlock"), ast.NewIdent(v))}
@@ -538,15 +540,62 @@ func (r *rewriter) rewriteCall(n *ast.CallExpr) ast.Expr {
 	return nil
 }
 
+func (r *rewriter) isMap(e ast.Expr) bool {
+	t := r.info.TypeOf(e)
+	if t == nil {
+		return false
+	}
+	_, ok := t.Underlying().(*types.Map)
+	return ok
+}
+
+// rewriteMapRange turns `for k, v := range m { body }` into
+//
+//	for it := verifsim.MapIter(site, m); it.Next(); { k, v := it.Key(), it.Val(); body }
+//
+// (one statement, so labels, break and continue keep their meaning).
+func (r *rewriter) rewriteMapRange(n *ast.RangeStmt) ast.Stmt {
+	r.useSim, r.changed = true, true
+	counts["maprange"]++
+	it := r.fresh()
+	init := &ast.AssignStmt{Lhs: []ast.Expr{ast.NewIdent(it)}, Tok: token.DEFINE,
+		Rhs: []ast.Expr{call(sel("verifsim", "MapIter"), r.site(n.Pos(), "maprange"), n.X)}}
+	cond := call(&ast.SelectorExpr{X: ast.NewIdent(it), Sel: ast.NewIdent("Next")})
+	var pre []ast.Stmt
+	bind := func(lhs ast.Expr, method string) {
+		if lhs == nil {
+			return
+		}
+		if id, ok := lhs.(*ast.Ident); ok && id.Name == "_" {
+			return
+		}
+		tok := n.Tok
+		if tok != token.DEFINE {
+			tok = token.ASSIGN
+		}
+		pre = append(pre, &ast.AssignStmt{Lhs: []ast.Expr{lhs}, Tok: tok,
+			Rhs: []ast.Expr{call(&ast.SelectorExpr{X: ast.NewIdent(it), Sel: ast.NewIdent(method)})}})
+		if tok == token.DEFINE {
+			// a variable the body never reads must not become "declared and not used"
+			pre = append(pre, &ast.AssignStmt{Lhs: []ast.Expr{ast.NewIdent("_")}, Tok: token.ASSIGN, Rhs: []ast.Expr{ast.NewIdent(lhs.(*ast.Ident).Name)}})
+		}
+	}
+	bind(n.Key, "Key")
+	bind(n.Value, "Val")
+	n.Body.List = append(pre, n.Body.List...)
+	return &ast.ForStmt{For: n.For, Init: init, Cond: cond, Body: n.Body}
+}
+
 func (r *rewriter) applyConstVariant(file *ast.File, v map[string]map[string]string) {
 	vals := v[r.p.PkgPath]
 	if vals == nil {
 		return
 	}
-	for _, d := range file.Decls {
-		gd, ok := d.(*ast.GenDecl)
+	// package-level and function-local constant declarations
+	ast.Inspect(file, func(n ast.Node) bool {
+		gd, ok := n.(*ast.GenDecl)
 		if !ok || gd.Tok != token.CONST {
-			continue
+			return true
 		}
 		for _, sp := range gd.Specs {
 			vs := sp.(*ast.ValueSpec)
@@ -558,5 +607,6 @@ func (r *rewriter) applyConstVariant(file *ast.File, v map[string]map[string]str
 				}
 			}
 		}
-	}
+		return true
+	})
 }
